@@ -222,6 +222,9 @@ def run(ctx):
             elif not faults.chain_has_fault(raised):
                 ctx.violation("fault-replaced", "the call raised %r but the injected fault is not in its exception chain"
                               % (raised,), desc)
+            elif not faults.fault_is_what_was_raised(raised):
+                ctx.violation("fault-masked-by-cleanup-error", "the caller got %r; the injected fault is only its implicit context, "
+                              "i.e. another error raised while handling it took its place" % (raised,), desc)
             post_conditions(desc, "after a fault at %s #%r" % (key, k))
             # the same TheJoker must still work
             try:
